@@ -185,6 +185,107 @@ def tupleKeys (n : Nat) : List String := (List.range n).map (fun i => "tuple_obs
 end Reorg
 end Ring
 
+/-! ### read side of `MultiAgentReplayBuffer`: `sample` / `_process_transition` / `stack_transitions`
+
+The memory is the list of stored transitions (`Trans`: one agent ↦ entry dict per field, in `field_names` order);
+the positions `random.sample` draws are an explicit list.  What `sample` returns for one (field, agent) is a `Val`:
+the rows of the batch (a plain array), a dict member ↦ rows, or a tuple of row lists.  Values are exact (dtype
+erased); the `uint8` cast of flag fields and the tensor conversion are the explicit functions `cast`, `tt`. -/
+namespace Ring
+section MaSample
+variable {κ α : Type} [DecidableEq κ]
+
+/-- `d[k]` (`none` = KeyError) -/
+def dget {β : Type} : List (κ × β) → κ → Option β
+  | [], _ => none
+  | (k', v) :: r, k => if k' = k then some v else dget r k
+
+def Ent.asArr : Ent κ α → Option α
+  | Ent.arr x => some x
+  | _ => none
+def Ent.isDict : Ent κ α → Bool
+  | Ent.dict _ => true
+  | _ => false
+def Ent.isTup : Ent κ α → Bool
+  | Ent.tup _ => true
+  | _ => false
+/-- member `k` of a dict entry -/
+def Ent.getKey (e : Ent κ α) (k : κ) : Option α :=
+  match e with
+  | Ent.dict kv => dget kv k
+  | _ => none
+/-- member `i` of a tuple entry -/
+def Ent.getIdx (e : Ent κ α) (i : Nat) : Option α :=
+  match e with
+  | Ent.tup xs => xs[i]?
+  | _ => none
+
+/-- `stack_transitions`: the entries of one (field, agent), in batch order, regrouped per member.  The container
+    kind, the dict keys and the tuple length are those of the FIRST entry; an empty batch raises (`transitions[0]`) -/
+def stackEnts (es : List (Ent κ α)) : Option (Val κ α) :=
+  match es with
+  | [] => none
+  | Ent.arr _ :: _ => (optAll (es.map Ent.asArr)).map Val.arr
+  | Ent.dict kv :: _ =>
+    if es.all Ent.isDict then
+      (optAll (kv.map (fun p => (optAll (es.map (fun e => e.getKey p.1))).map (fun rows => (p.1, rows))))).map Val.dict
+    else none
+  | Ent.tup xs :: _ =>
+    if es.all Ent.isTup then
+      (optAll ((List.range xs.length).map (fun i => optAll (es.map (fun e => e.getIdx i))))).map Val.tup
+    else none
+
+/-- `getattr(e, f)` on the namedtuple over `names` -/
+def getField {β : Type} : List String → List β → String → Option β
+  | n :: ns, x :: xs, f => if n = f then some x else getField ns xs f
+  | _, _, _ => none
+
+/-- the fields whose stacked arrays are cast to `uint8` -/
+def isFlag (f : String) : Bool := decide (f ∈ ["done", "termination", "terminated", "truncation", "truncated"])
+
+/-- `.astype(np.uint8)` exists on arrays only -/
+def Val.castArr (cast : α → α) : Val κ α → Option (Val κ α)
+  | Val.arr rows => some (Val.arr (rows.map cast))
+  | _ => none
+
+/-- every leaf through `f` -/
+def Val.mapLeaves (f : α → α) : Val κ α → Val κ α
+  | Val.arr rows => Val.arr (rows.map f)
+  | Val.dict kv => Val.dict (kv.map (fun p => (p.1, p.2.map f)))
+  | Val.tup xs => Val.tup (xs.map (fun rows => rows.map f))
+
+/-- the entries stored for (field `f`, agent `a`) in the given experiences, in order -/
+def maColumn (names : List String) (exps : List (Trans κ α)) (f : String) (a : κ) : Option (List (Ent κ α)) :=
+  optAll (exps.map (fun e => (getField names e f).bind (fun d => dget d a)))
+
+/-- the cast of flag fields, then the tensor conversion -/
+def maPost (cast tt : α → α) (f : String) (v : Val κ α) : Option (Val κ α) :=
+  (if isFlag f then Val.castArr cast v else some v).map (Val.mapLeaves tt)
+
+/-- what `_process_transition` puts at `transition[f][a]` -/
+def maCell (cast tt : α → α) (names : List String) (exps : List (Trans κ α)) (f : String) (a : κ) : Option (Val κ α) :=
+  ((maColumn names exps f a).bind stackEnts).bind (maPost cast tt f)
+
+/-- `transition[f]`: agent ↦ stacked value, agents in `agents` order -/
+def maFieldRow (cast tt : α → α) (names : List String) (agents : List κ) (exps : List (Trans κ α)) (f : String) :
+    Option (Field κ α) :=
+  optAll (agents.map (fun a => (maCell cast tt names exps f a).map (fun v => (a, v))))
+
+/-- `_process_transition`: field ↦ agent ↦ stacked value, fields in `names` order -/
+def maProcess (cast tt : α → α) (names : List String) (agents : List κ) (exps : List (Trans κ α)) :
+    Option (List (String × Field κ α)) :=
+  optAll (names.map (fun f => (maFieldRow cast tt names agents exps f).map (fun d => (f, d))))
+
+/-- `sample(k)` with the drawn positions `draw`: ValueError unless `0 ≤ k ≤ len`; one `Field` per field name -/
+def maSample (cast tt : α → α) (names : List String) (agents : List κ) (mem : List (Trans κ α)) (k : Int)
+    (draw : List Nat) : Option (List (Field κ α)) :=
+  if k < 0 ∨ k > (mem.length : Int) then none else
+  (optAll (draw.map (fun i => mem[i]?))).bind (fun exps =>
+    (maProcess cast tt names agents exps).map (fun t => t.map (fun p => p.2)))
+
+end MaSample
+end Ring
+
 /-! ### line protocol -/
 namespace Ring
 open Util
@@ -237,7 +338,44 @@ def showMatrix (m : List (List (EnvField Nat Nat))) : String :=
 
 def showSlots (l : List (Option Nat)) : String := " ".intercalate (l.map showOptNat)
 
+/-! wire format of `masample`: `N name^N  M agent^M  P trans^P  k  D pos^D`, trans = `F envfield^F`,
+    envfield = `M (key ent)^M`, ent = `A row` | `D m (key row)^m` | `T m row^m`; answer: `N field^N` in the format of
+    `pArgs` (or `reject`); the cast of flag fields and the tensor conversion are the identity on the naturals -/
+def pStr : P String
+  | [] => none
+  | w :: r => some (w, r)
+
+def pEnt : P (Ent Nat Nat)
+  | "A" :: r => match pNat r with | none => none | some (x, r') => some (Ent.arr x, r')
+  | "D" :: r => match pCounted (pPair pNat pNat) r with | none => none | some (x, r') => some (Ent.dict x, r')
+  | "T" :: r => match pCounted pNat r with | none => none | some (x, r') => some (Ent.tup x, r')
+  | _ => none
+
+def pTrans : P (Trans Nat Nat) := pCounted (pCounted (pPair pNat pEnt))
+
+def pInt : P Int
+  | [] => none
+  | w :: r => match parseInt? w with | none => none | some n => some (n, r)
+
+def showRows (l : List Nat) : String := s!"{l.length}" ++ String.join (l.map (fun r => s!" {r}"))
+
+def showVal : Val Nat Nat → String
+  | Val.arr rows => "A " ++ showRows rows
+  | Val.dict kv => s!"D {kv.length}" ++ String.join (kv.map (fun p => s!" {p.1} " ++ showRows p.2))
+  | Val.tup xs => s!"T {xs.length}" ++ String.join (xs.map (fun r => " " ++ showRows r))
+
+def showBatch (b : List (Field Nat Nat)) : String :=
+  s!"{b.length}" ++ String.join (b.map (fun f => s!" {f.length}" ++ String.join (f.map (fun p => s!" {p.1} " ++ showVal p.2))))
+
+def pMaSample : P (List String × List Nat × List (Trans Nat Nat) × Int × List Nat) :=
+  pPair (pCounted pStr) (pPair (pCounted pNat) (pPair (pCounted pTrans) (pPair pInt (pCounted pNat))))
+
 def step (s : IOState) : List String → IOState × String
+  | "masample" :: ws =>
+    match pMaSample ws with
+    | some ((names, agents, mem, k, draw), []) =>
+      (s, match maSample id id names agents mem k draw with | none => "reject" | some b => showBatch b)
+    | _ => (s, "bad-op")
   | ["new", c] =>
     match parseNat? c with
     | some cap => if cap = 0 then (s, "bad-op") else ({ s with buf := Buf.empty cap }, "ok")
